@@ -162,7 +162,12 @@ class NativeVC:
     def lock_discipline(self, name, label):
         return 0
 
-    def map(self, name, key=None, val=None, default=None, inv=None):
+    def fields(self, obj):
+        return dict(vars(obj))
+
+    def map(self, name, key=None, val=None, default=None, inv=None, like=None):
+        if like is not None:
+            default = getattr(like, "default_factory", None)
         pairs = [(self._from_json(key, k), self._from_json(val, v)) for k, v in self._get(name)]
         if default is not None:
             import collections
@@ -186,9 +191,12 @@ class NativeVC:
     def lazy_set(self, name, gen_key=None):
         return set(self.lazy_dict(name, lambda vc, n, k: True, gen_key).keys())
 
-    def copy(self, v):
+    def copy(self, v, default=None):
+        import collections
         import copy
 
+        if default is not None:
+            return collections.defaultdict(default, v)
         return copy.copy(v)
 
     def intset(self, name, probe=None):
@@ -803,7 +811,7 @@ class GenVC(NativeVC):
             return [self._gen_json(s) for _, s in d[2]]
         raise ReplayInvalid(f"bad descriptor {d!r}")
 
-    def map(self, name, key=None, val=None, default=None, inv=None):
+    def map(self, name, key=None, val=None, default=None, inv=None, like=None):
         pairs = []
         seen = set()
         for _ in range(self.rng.choice([0, 1, 2, 4])):
@@ -816,7 +824,7 @@ class GenVC(NativeVC):
                     pairs.append([kj, vj])
                     break
         self.model[name] = pairs
-        return NativeVC.map(self, name, key, val, default, inv)
+        return NativeVC.map(self, name, key, val, default, inv, like)
 
     def assume(self, c):
         if not c:
